@@ -99,7 +99,7 @@ CHECKS = {
  "C04": ("fault_enumeration",
          "exhaustive single-fault injection: fault classes x every statement slot of every base program (contexts incl. imported file), in-process location oracle + real-binary exit/stdout/target-directory oracle",
          "DESIGN.md §4 C04",
-         "22 fault texts covering the 11 error classes (range faults at the smallest invalid distances, illegal modes incl. those that depend on the operand's size) are injected one at a time at every statement slot of every valid base program and of a program that needs 57 passes to settle - top level, scopes, loop bodies, taken branches, invoked macro bodies, segment and import blocks - and at every line boundary of the imported file. Each faulty project must produce a diagnostic whose line lies inside the offending construct (the second definition for redefinitions, the branch for range errors, the call for arity errors); through the real binary: exit status 1, stdout names file:line:col, the target directory keeps exactly its two pre-existing files, unmodified.",
+         "32 fault texts covering the 11 error classes (the undefined name in every position an expression can stand in; range faults at the smallest invalid distances, illegal modes incl. those that depend on the operand's size) are injected one at a time at every statement slot of every valid base program and of a program that needs 57 passes to settle - top level, scopes, loop bodies, taken branches, invoked macro bodies, segment and import blocks - and at every line boundary of the imported file. Each faulty project must produce a diagnostic whose line lies inside the offending construct (the second definition for redefinitions, the branch for range errors, the call for arity errors); through the real binary: exit status 1, stdout names file:line:col, the target directory keeps exactly its two pre-existing files, unmodified.",
          "One fault per program; weakest reading of 'names the location' (line within the construct); semantic faults only where `mos build` assembles the code."),
  "C11": ("exploration",
          "bounded-exhaustive program enumeration with a certificate oracle: the fixed-point walker's byte->statement attribution against the source map and the parsed listing text",
